@@ -34,6 +34,23 @@ class Translator:
             self.symbol_map[s] = z3.Real(self.prefix + s.name)
         return self.symbol_map[s]
 
+    def cond(self, c):
+        if c is sympy.true:
+            return z3.BoolVal(True)
+        if c is sympy.false:
+            return z3.BoolVal(False)
+        if isinstance(c, sympy.And):
+            return z3.And(*[self.cond(a) for a in c.args])
+        if isinstance(c, sympy.Or):
+            return z3.Or(*[self.cond(a) for a in c.args])
+        if isinstance(c, sympy.Not):
+            return z3.Not(self.cond(c.args[0]))
+        rel = {sympy.Eq: lambda a, b: a == b, sympy.Ne: lambda a, b: a != b, sympy.Lt: lambda a, b: a < b, sympy.Le: lambda a, b: a <= b, sympy.Gt: lambda a, b: a > b, sympy.Ge: lambda a, b: a >= b}
+        for k, f in rel.items():
+            if isinstance(c, k):
+                return f(self.tr(c.args[0]), self.tr(c.args[1]))
+        raise ValueError(f"cannot translate condition {c}")
+
     def tr(self, e):
         e = sympy.sympify(e)
         if e.is_Symbol:
@@ -86,6 +103,18 @@ class Translator:
                 return z3.RealVal(1) / r
             self.used_uf.add("pow")
             return uf("pow", 2)(self.tr(base), self.tr(ex))
+        if isinstance(e, sympy.Abs):
+            a = self.tr(e.args[0])
+            return z3.If(a >= 0, a, -a)
+        if isinstance(e, sympy.sign):
+            a = self.tr(e.args[0])
+            return z3.If(a > 0, z3.RealVal(1), z3.If(a < 0, z3.RealVal(-1), z3.RealVal(0)))
+        if isinstance(e, sympy.Piecewise):
+            out = None
+            for val, cond in reversed(e.args):
+                v = self.tr(val)
+                out = v if (cond is sympy.true or out is None) else z3.If(self.cond(cond), v, out)
+            return out
         if isinstance(e, sympy.Function) or e.is_Function:
             name = type(e).__name__
             self.used_uf.add(name)
